@@ -503,9 +503,11 @@ class MeiParser(object):
             if child_el.tag == self._ns_name("staffDef"):
                 new_part = self._handle_initial_staffdef(child_el)
                 staff_group.children.append(new_part)
+                new_part.parent = staff_group
             elif child_el.tag == self._ns_name("staffGrp"):
                 new_staffgroup = self._handle_staffgroup(child_el)
                 staff_group.children.append(new_staffgroup)
+                new_staffgroup.parent = staff_group
         return staff_group
 
     def _handle_main_staff_group(self, main_staffgrp_el):
